@@ -835,10 +835,10 @@ def run(scen, ctx):
                 return v
             if canon(ctx.enc(norm(got))) != canon(ctx.enc(norm(want))):
                 scen['_oracle'] = {'c18': f'into_data({val!r}, custom=handlers) = {got!r}; element by element with the same handlers: {want!r}'}
-            return {'skip': True}
+            return {'ok': ctx.enc(got)}
         except BaseException as e:  # noqa
             scen['_oracle'] = {'c18': f'into_data({val!r}, custom=handlers) raised {type(e).__name__}: {e}'}
-            return {'skip': True}
+            return {'raises': map_exc(e)}
     if op == 'into_dyn':
         val = ctx.dec(scen['val'])
         try:
